@@ -23,7 +23,7 @@ Definition model (i : input) : obs :=
   match i with
   | IRepr isb s ml np =>
       if agree i then ORepr (text_repr_tok isb (nonprint_of np) s ml) true else OBad
-  | IDesc _ modelled hm => if modelled then ODesc (expected_kinds hm) else OBad
+  | IDesc _ modelled hm => if modelled then ODesc (expected_kinds hm) (expected_asserts hm) else OBad
   | ITest p =>
       let r := run_test p in
       match r_details r with
@@ -43,7 +43,7 @@ Definition alpha (o : obs) : obs :=
 Definition obs_eqb (a b : obs) : bool :=
   match a, b with
   | ORepr x e, ORepr y f => list_eqb N.eqb x y && Bool.eqb e f
-  | ODesc x, ODesc y => list_eqb okind_eqb x y
+  | ODesc x a, ODesc y b => list_eqb okind_eqb x y && list_eqb Bool.eqb a b
   | OTest r a oc d, OTest r' a' oc' d' =>
       list_eqb (list_eqb Bool.eqb) r r' && Bool.eqb a a' && outcome_eqb oc oc' && list_eqb Nat.eqb (tokens d) (tokens d')
   | OBad, OBad => true
